@@ -11,8 +11,9 @@ Open Scope N_scope.
 
 Theorem c01_codec_translators_ok : ProtoConsts_translator_ok = true /\ CodecSrc_translator_ok = true.
 Proof. exact (conj eq_refl eq_refl). Qed.
-Theorem c01_codec_src_repaired : bolt_enc_checked = true /\ xp_hdr_checked = true /\ dubbo_setdata_resets_raw = true /\ thrift_copies_frame = true.
-Proof. exact (conj eq_refl (conj eq_refl (conj eq_refl eq_refl))). Qed.
+Theorem c01_codec_src_repaired : bolt_enc_checked = true /\ xp_hdr_checked = true /\ dubbo_setdata_resets_raw = true /\ thrift_copies_frame = true /\
+  setdata_sees_inplace_rewrite = true.
+Proof. exact (conj eq_refl (conj eq_refl (conj eq_refl (conj eq_refl eq_refl)))). Qed.
 
 (* FAST PATH.  For every content of the read buffer from which Decode extracts a frame (any field values, any
    class/header/content lengths, any header pairs, any body) and every id: Decode, SetRequestId(id), Encode returns the
@@ -155,3 +156,20 @@ Theorem c01_tars_encode_decode : forall (pkt : Type) jread jwrite (pid : pkt -> 
   jread resp (dropN tars_MessageSizeLen out) = Some p.
 Proof. exact (fun pkt jread jwrite pid stype => tars_encode_decode pkt jread jwrite pid stype). Qed.
 Print Assumptions c01_tars_encode_decode.
+
+(* BODY REWRITTEN IN PLACE (the way stream filters replace a body: proxy SetRequestData/SetResponseData refill the SAME buffer
+   object, then SetData gets that buffer).  apply_op's OpRewriteInPlace is part of the op sequences of
+   c01_modify_roundtrip (a rewrite of another length flags the content changed: rewrite_other_length_changes); a rewrite
+   of the SAME length flags nothing and the fast path returns the received frame with exactly the content bytes and the
+   request id replaced - every length field is the received one and still true *)
+Theorem c01_in_place_same_length :
+  (forall v c n id d mem, res (bolt_decode v) = Ok (c, n) -> blen d = blen (b_content c) ->
+   exists c', bolt_encode mem (set_request_id id (rewrite_in_place d c)) =
+              EncOk (patch (patch (takeN n (vb v)) (content_index c) d) (reqid_off c) (be_enc 4 (id mod 4294967296))) c') /\
+  (forall v c n id d mem, res (boltv2_decode v) = Ok (c, n) -> blen d = blen (b_content c) ->
+   exists c', bolt_encode mem (set_request_id id (rewrite_in_place d c)) =
+              EncOk (patch (patch (takeN n (vb v)) (content_index c) d) (reqid_off c) (be_enc 4 (id mod 4294967296))) c') /\
+  (forall c raw d, b_raw c = Some (Private raw) -> blen d <> blen (b_content c) ->
+   b_cchanged (rewrite_in_place d c) = true /\ b_content (rewrite_in_place d c) = d).
+Proof. exact (conj bolt_in_place_same_length (conj boltv2_in_place_same_length rewrite_other_length_changes)). Qed.
+Print Assumptions c01_in_place_same_length.
